@@ -175,6 +175,84 @@ given result reducers are used as they are -/
 theorem result_reducers_default (j : Option Table) (r : Table) :
     resultReducers j none = j ∧ resultReducers j (some r) = some r := ⟨rfl, rfl⟩
 
+/-! ## the reusable executor carries the reducers of the latest request -/
+
+/-- **one request**: if the test for "the arguments have not changed" only accepts requests whose
+reducer maps, initializer, initargs and env are the stored ones, the executor returned for a request is
+usable and pickles tasks with that request's job reducers and results with its result reducers (the job
+reducers when none are given), runs that request's initializer in its workers — whether it is the
+previous executor (reused, resized) or a new one, whatever happened before. -/
+theorem request_carries (same : Kwargs → Kwargs → Bool)
+    (hsame : ∀ a b, same a b = true → a.job = b.job ∧ a.res = b.res ∧ a.init = b.init ∧ a.initargs = b.initargs ∧ a.env = b.env)
+    (s : RState) (hs : s.Consistent) (w : Nat) (k : Kwargs) :
+    ∃ e, (request same s w k).1.cur = some e ∧ e.usable = true ∧ e.maxWorkers = w ∧ e.jobq = k.job
+      ∧ e.resq = resultReducers k.job k.res ∧ e.init = k.init ∧ e.initargs = k.initargs ∧ e.env = k.env := by
+  unfold request
+  split
+  · exact ⟨_, rfl, by simp [newRExec]⟩
+  · rename_i e0 h0
+    split
+    · rename_i hc
+      simp only [Bool.and_eq_true] at hc
+      obtain ⟨hj, hr, hi, ha, he⟩ := hsame _ _ hc.2
+      obtain ⟨c1, c2, c3, c4, c5⟩ := hs e0 h0
+      exact ⟨_, rfl, hc.1, rfl, by simp [c1, hj], by simp [c2, hj, hr], by simp [c3, hi], by simp [c4, ha], by simp [c5, he]⟩
+    · exact ⟨_, rfl, by simp [newRExec]⟩
+
+/-- the test of the code (`kwargs == _executor_kwargs`, identity of every reducer) is such a test -/
+theorem sameKwargs_sound (a b : Kwargs) (h : sameKwargs a b = true) :
+    a.job = b.job ∧ a.res = b.res ∧ a.init = b.init ∧ a.initargs = b.initargs ∧ a.env = b.env := by
+  have : a = b := by simpa [sameKwargs] using h
+  subst this; simp
+
+/-- **all histories**: after any history of requests and shutdowns on the singleton that ends with a
+request, the singleton carries exactly that last request's reducers, initializer and environment. -/
+theorem reuse_carries_latest (pre : List ROp) (w : Nat) (k : Kwargs) :
+    ∃ e, (rrun sameKwargs ⟨0, none⟩ (pre ++ [.req w k])).cur = some e ∧ e.usable = true ∧ e.jobq = k.job
+      ∧ e.resq = resultReducers k.job k.res ∧ e.init = k.init ∧ e.initargs = k.initargs ∧ e.env = k.env := by
+  have hc : (rrun sameKwargs ⟨0, none⟩ pre).Consistent :=
+    rrun_consistent _ pre _ (by intro e he; simp at he)
+  obtain ⟨e, h1, h2, _, h3⟩ := request_carries sameKwargs sameKwargs_sound _ hc w k
+  refine ⟨e, ?_, h2, h3⟩
+  simpa [rrun, List.foldl_append, rstep] using h1
+
+/-- the executor is reused exactly when it is usable and every compared argument is identical -/
+theorem reused_iff (s : RState) (w : Nat) (k : Kwargs) :
+    (request sameKwargs s w k).2 = true ↔ ∃ e, s.cur = some e ∧ e.usable = true ∧ e.kwargs = k := by
+  unfold request
+  split
+  · simp_all
+  · rename_i e0 h0
+    by_cases hc : (e0.usable && sameKwargs k e0.kwargs) = true
+    · rw [if_pos hc]
+      simp only [Bool.and_eq_true, sameKwargs, decide_eq_true_eq] at hc
+      simp [h0, hc.1, hc.2]
+    · rw [if_neg hc]
+      simp only [Bool.and_eq_true, sameKwargs, decide_eq_true_eq] at hc
+      simp only [Bool.false_eq_true, h0, Option.some.injEq, false_iff, not_exists, not_and]
+      intro e he hu hk
+      subst he
+      exact hc ⟨hu, hk.symm⟩
+
+/-- **witness**: a test that compares reducers "by implementation" (two closures of one factory, two
+instances of one class: same key) is not such a test — the second request gets the first one's reducers -/
+theorem same_by_code_stale :
+    let code : Reducer → Nat := fun r => r / 100
+    let k1 : Kwargs := ⟨10, some [(30, 701)], none, none, [], none⟩
+    let k2 : Kwargs := ⟨10, some [(30, 702)], none, none, [], none⟩
+    ∃ e, (rrun (sameByCode code) ⟨0, none⟩ [.req 1 k1, .req 1 k2]).cur = some e ∧ e.jobq ≠ k2.job ∧ e.jobq = k1.job := by
+  decide
+
+/-- non-vacuity: a history in which the executor is reused, replaced for changed reducers, shut down by
+the user and replaced again -/
+example :
+    ((rrun sameKwargs ⟨0, none⟩
+        [.req 1 ⟨10, some [(30, 701)], none, none, [], none⟩, .req 2 ⟨10, some [(30, 701)], none, none, [], none⟩,
+         .req 2 ⟨10, some [(30, 702)], some [], some 5, [1], some [(1, 2)]⟩, .shutdown,
+         .req 2 ⟨10, some [(30, 702)], some [], some 5, [1], some [(1, 2)]⟩]).cur.map
+      (fun e => (e.id, e.maxWorkers, e.jobq, e.resq, e.usable))) = some (2, 2, some [(30, 702)], some [], true) := by
+  rfl
+
 /-! ## built-in reducers round-trip -/
 
 /-- `partial_roundtrip`: reducing and rebuilding a partial gives back the same `func`, `args`
